@@ -21,6 +21,7 @@ func runInits(L *Loaded, cfg *RunConfig) *InitState {
 	e.lenient = true
 	e.H = newHarnessRun("", "init")
 	e.initMode = true
+	e.LenientCalls = map[string]int{}
 	var names []string
 	for p := range L.rootSet() {
 		names = append(names, p)
@@ -53,6 +54,10 @@ func runInits(L *Loaded, cfg *RunConfig) *InitState {
 		}()
 	}
 	st.Globals = e.globals
+	for k, n := range e.LenientCalls {
+		st.Notes = append(st.Notes, fmt.Sprintf("lenient zero result x%d: %s", n, k))
+	}
+	sort.Strings(st.Notes)
 	if os.Getenv("GOSYM_DEBUG") != "" {
 		for _, n := range st.Notes {
 			fmt.Fprintln(os.Stderr, "INIT:", n)
